@@ -177,6 +177,31 @@ static void decode(const json& v)
             }
             else
                 rep.ok("leaf");
+            // a set: every declared choice getter reports the bit of the encoded value it names
+            // (leaf values are value digits, least significant byte first)
+            const auto sb = R.setbits.find(key);
+            if(sb != R.setbits.end() && err.empty())
+            {
+                bytes cm;
+                auto err3 = attempt([&] { cm = sb->second(p, size, ip); });
+                const std::size_t w = cm.size() / 2;
+                bytes want(w, 0);
+                for(std::size_t i = 0; i < w && i < exp.size(); i++)
+                    want[i] = static_cast<std::uint8_t>(exp[i] & cm[w + i]);
+                const bytes gotc(cm.begin(), cm.begin() + static_cast<std::ptrdiff_t>(w));
+                if(!err3.empty())
+                    bad(c, "value", "set-choices", key, err3, cs);
+                else if(w != exp.size() || gotc != want)
+                {
+                    cs["expected"] = hex(want);
+                    cs["got"] = hex(gotc);
+                    bad(c, "value", "set-choices", key,
+                        "the choice getters report " + hex(gotc) + " (declared bits), the encoder wrote " + hex(want),
+                        cs);
+                }
+                else
+                    rep.ok("set-choices");
+            }
         }
         // get_by_tag must behave exactly like the named accessor (C19)
         for(auto it = R.tagged.lower_bound(lkey + ":");
